@@ -303,6 +303,7 @@ func IMul(a, b *Term) *Term {
 		if !nlSeen[t.String()] {
 			nlSeen[t.String()] = true
 			NLMulComm = append(NLMulComm, Eq(t, App("umul", IntSort, b, a)))
+			NLMulExact = append(NLMulExact, Eq(t, App("*", IntSort, a, b)))
 		}
 		return t
 	}
@@ -314,6 +315,9 @@ var NLMulUF bool
 
 // NLMulComm collects commutativity instances umul(a,b) == umul(b,a) for every product created.
 var NLMulComm []*Term
+
+// NLMulExact: umul(a,b) == a*b, used only when refining a counterexample.
+var NLMulExact []*Term
 var nlSeen = map[string]bool{}
 
 // SMT-LIB div/mod (Euclidean; for positive divisor = floor)
